@@ -62,6 +62,11 @@ func catalogCheck(args []string) (any, error) {
 			Ok  bool
 			Out string
 		} `json:"sql"`
+		JSON []struct {
+			T  string `json:"t"`
+			Ok bool   `json:"ok"`
+			D  any    `json:"d"`
+		} `json:"json"`
 		Regex []struct {
 			P, S, R, Out string
 			Ok           bool
@@ -177,6 +182,18 @@ func catalogCheck(args []string) (any, error) {
 		}
 		if got := time.Unix(0, v*u).UTC().Format(lay); got != d.Out {
 			bad = append(bad, fmt.Sprintf("datetime %v: standard library %q, catalog %q", d, got, d.Out))
+		}
+	}
+	for _, x := range c.JSON {
+		n++
+		var got any
+		err := json.Unmarshal([]byte(x.T), &got)
+		if (err == nil) != x.Ok {
+			bad = append(bad, fmt.Sprintf("json %q: decodes=%v, catalog ok=%v", x.T, err == nil, x.Ok))
+			continue
+		}
+		if err == nil && !reflect.DeepEqual(got, x.D) {
+			bad = append(bad, fmt.Sprintf("json %q: engine %#v, catalog %#v", x.T, got, x.D))
 		}
 	}
 	for _, x := range c.Regex {
